@@ -296,16 +296,31 @@ impl<'a, 'doc, 'schema, R: RandomProvider> ResponseBuilder<'a, 'doc, 'schema, R>
 
             let val = if meta_field.name == TYPENAME {
                 Value::String(concrete.to_string().into())
-            } else if !meta_field.ty().is_non_null() && self.should_be_null()? {
-                Value::Null
             } else {
-                self.generate_field_value(&fields, meta_field)?
+                let ty = self.field_type(concrete, meta_field);
+                if !ty.is_non_null() && self.should_be_null()? {
+                    Value::Null
+                } else {
+                    self.generate_value_of_type(&fields, meta_field, &ty)?
+                }
             };
 
             result.insert(key, val);
         }
 
         Ok(Value::Object(result))
+    }
+
+    /// The type of a field as defined by the concrete object type being generated.
+    ///
+    /// When the field was selected through an interface (or a fragment on one), `field.ty()`
+    /// is the interface's definition, which an implementing object may narrow
+    /// (`Int` to `Int!`, `Node` to `User`).
+    fn field_type(&self, concrete: &Name, field: &Field) -> Type {
+        match self.schema.type_field(concrete, &field.name) {
+            Ok(definition) => definition.ty.clone(),
+            Err(_) => field.ty().clone(),
+        }
     }
 
     /// Generate the value for a (possibly merged) field group.
@@ -344,7 +359,7 @@ impl<'a, 'doc, 'schema, R: RandomProvider> ResponseBuilder<'a, 'doc, 'schema, R>
                     merged_selections.extend_from_slice(&field.selection_set.selections);
                 }
                 let full_selection_set = SelectionSet {
-                    ty: meta_field.selection_set.ty.clone(),
+                    ty: type_name.clone(),
                     selections: merged_selections,
                 };
                 self.selection_set(&full_selection_set)
